@@ -36,6 +36,7 @@ unsafe extern "C" {
     fn dup(fd: i32) -> i32;
     fn dup2(old: i32, new: i32) -> i32;
     fn open(path: *const std::ffi::c_char, flags: i32, ...) -> i32;
+    fn mmap(addr: *mut u8, len: usize, prot: i32, flags: i32, fd: i32, off: i64) -> *mut u8;
     fn waitpid(pid: i32, status: *mut i32, options: i32) -> i32;
     fn _exit(code: i32) -> !;
 }
@@ -72,6 +73,17 @@ fn set_hash_key(seed: u64, thread_index: u64) {
     HASH_KEY.with(|c| c.set(Some(k)));
     // draw the thread's RandomState keys now
     let _ = std::collections::hash_map::RandomState::new();
+}
+
+/// Shared (parent/child) progress counter: number of client messages the forked run has started
+/// to handle.  Lets the parent say *which* message was being handled when a child died without a
+/// record (stack overflow, abort).
+static PROGRESS: std::sync::atomic::AtomicPtr<std::sync::atomic::AtomicU64> =
+    std::sync::atomic::AtomicPtr::new(std::ptr::null_mut());
+
+fn progress() -> Option<&'static std::sync::atomic::AtomicU64> {
+    let p = PROGRESS.load(std::sync::atomic::Ordering::Relaxed);
+    if p.is_null() { None } else { Some(unsafe { &*p }) }
 }
 
 struct Prng(u64);
@@ -350,6 +362,9 @@ impl TokenSched {
                 P_MSG => {
                     let j = s.msgs_seen;
                     s.msgs_seen += 1;
+                    if let Some(p) = progress() {
+                        p.store(s.msgs_seen as u64, std::sync::atomic::Ordering::SeqCst);
+                    }
                     if s.strategy == Strategy::Timed {
                         // handling the previous message cost 1 ms; message j arrives at arrivals[j]
                         let arr = s.arrivals.get(j).copied().unwrap_or(0);
@@ -854,6 +869,13 @@ pub fn main() -> Result<(), Box<dyn Error>> {
         ]});
         let _ = run_one(&warm);
     }
+    unsafe {
+        // PROT_READ|PROT_WRITE = 3, MAP_SHARED|MAP_ANONYMOUS = 0x21
+        let m = mmap(std::ptr::null_mut(), 4096, 3, 0x21, -1, 0);
+        if !m.is_null() && m as isize != -1 {
+            PROGRESS.store(m as *mut std::sync::atomic::AtomicU64, std::sync::atomic::Ordering::Relaxed);
+        }
+    }
     let stdin = std::io::stdin();
     for line in stdin.lock().lines() {
         let line = line?;
@@ -873,6 +895,9 @@ pub fn main() -> Result<(), Box<dyn Error>> {
         // ...) would otherwise make a run depend on which runs the process executed before
         // (their initialisation draws RandomState keys on whichever thread comes first).
         // It also means that parked threads of a deadlocked run simply vanish with the child.
+        if let Some(p) = progress() {
+            p.store(0, std::sync::atomic::Ordering::SeqCst);
+        }
         let pid = unsafe { fork() };
         if pid == 0 {
             let rec = run_one(&spec);
@@ -886,7 +911,11 @@ pub fn main() -> Result<(), Box<dyn Error>> {
             let exited_ok = (status & 0x7f) == 0 && matches!((status >> 8) & 0xff, 0 | 3);
             if !exited_ok {
                 // the child died without writing a record (abort, stack overflow, signal)
-                writeln!(proto, "{}", json!({"run": spec["run"], "child_died": status, "main": {"exit": format!("abort:status={status}"), "msgs_seen": 0}, "out": [], "threads": []}))?;
+                let seen = progress().map(|p| p.load(std::sync::atomic::Ordering::SeqCst)).unwrap_or(0);
+                writeln!(proto, "{}", json!({"run": spec["run"], "child_died": status,
+                    "main": {"exit": format!("panic:the server process died without unwinding (wait status {status}: stack overflow or abort) [in ] @ process-abort"), "msgs_seen": seen, "n_ops": spec["ops"].as_array().map(|a| a.len())},
+                    "out": [], "threads": [], "decisions": [], "choices": [], "crashed": [], "deadlock": false, "watchdog": false,
+                    "log_hash": format!("died-{status}-{seen}")}))?;
                 proto.flush()?;
             }
         } else {
